@@ -185,6 +185,10 @@ func (m *C04) OnCall(e *sim.Env, c *sim.Call) {
 
 type C10 struct {
 	feesLedger *big.Int // Σ fees of txs whose ante passed in the current block (from collector deltas per DeliverTx)
+	// prevProposer: the proposer address of the previous BeginBlock request (the monitor's own record; the stored
+	// "previous proposer" is what the application made of it); known=false until one BeginBlock was seen
+	prevProposer      string
+	prevProposerKnown bool
 }
 
 func NewC10() *C10 { return &C10{feesLedger: new(big.Int)} }
@@ -217,6 +221,11 @@ func (m *C10) OnCall(e *sim.Env, c *sim.Call) {
 			e.Count("c10.fee_txs")
 		}
 	case "begin":
+		defer func() {
+			if c.Entry.Begin != nil {
+				m.prevProposer, m.prevProposerKnown = lower(c.Entry.Begin.Proposer), true
+			}
+		}()
 		if c.Panic != "" {
 			return
 		}
@@ -225,8 +234,15 @@ func (m *C10) OnCall(e *sim.Env, c *sim.Call) {
 		recipient := ""
 		if c.H > 1 {
 			fees = new(big.Int).Set(pre.Bal(FeeAddr))
-			if _, ok := pre.Vals[pre.Proposer]; ok {
-				recipient = pre.Proposer
+			prop := pre.Proposer
+			if m.prevProposerKnown {
+				if prop != m.prevProposer {
+					e.Violate("C10", "stored-proposer-ne-requested", fmt.Sprintf("BeginBlock@%d: the fees of block %d belong to its proposer %q (from that block's header); the application recorded %q", c.H, c.H-1, m.prevProposer, prop), c)
+				}
+				prop = m.prevProposer
+			}
+			if _, ok := pre.Vals[prop]; ok && prop != "" {
+				recipient = prop
 				e.Count("c10.fee_blocks_to_validator")
 			} else {
 				recipient = PosAddr
